@@ -153,7 +153,7 @@ fn getvalues_case<const N: usize>() {
     std::mem::forget(out);
 }
 
-// @harness name=c04_getvalues_state_2 props=C04,C03 tier=quick timeout=1200 rmbody=ioerr,nogrow dead=1
+// @harness name=c04_getvalues_state_2 props=C04,C03 tier=quick timeout=1200 rmbody=ioerr,nogrow dead=3
 // @bound GetValuesState<HeaderState>: any accumulated set, payload_rem 0..65535, padding_rem 0..255, input of exactly 2 symbolic bytes (shorter bodies via payload_rem); parse_name / write_response replaced by the E5 models; E8 (io::Error drop = no-op)
 // @functions request::GetValuesState::drive, NVIter<&[u8]>::next, parser::parse_nv_var
 #[kani::proof]
@@ -780,7 +780,7 @@ fn c01_wrapped_resume() {
 
 // ------------------------------------------------------------------------------------------------ conversions (C05)
 
-// @harness name=c05_request_conversions props=C05,C03,C01 tier=quick timeout=900
+// @harness name=c05_request_conversions props=C05,C03,C01 tier=quick timeout=900 rmbody=nodropreq
 // @bound 24-byte buffer, every input_len; states Done / Fatal / non-final: into_request and into_stream_parser hand over exactly input[..input_len] (resp. refuse with the right error); stream parser starts at the role's first stream with geometry (0,0,0,input_len)
 // @functions request::Parser::into_request, request::Parser::into_stream_parser, stream::Parser::from_parser
 #[kani::proof]
@@ -829,4 +829,30 @@ fn c05_request_conversions() {
             Err(e) => { assert!(if kind == 1 { matches!(e, Error::NullRequest) } else { kind == 2 && matches!(e, Error::Interrupted) }); }
         }
     }
+}
+
+// ------------------------------------------------------------------------------------------------ contract stub of request::Parser::parse for the async glue harnesses
+pub(crate) static mut GR_PARSE_CALLS: usize = 0;
+pub(crate) static mut GR_FED: usize = 0;
+pub(crate) static mut GR_OUT_TOTAL: usize = 0;
+
+/// Any behaviour `request::Parser::parse` may show to its caller: consumes any part of the buffered bytes, emits
+/// 0 or 2 reply bytes, finishes or not (never "not finished with a full buffer": that is reported as StuckOnInput).
+pub(crate) fn rparse_contract<'p, 'a>(p: &'p mut Parser<'a>, new_input: usize) -> Yield<'p> where 'a: 'a {
+    assert!(new_input <= p.input.len() - p.input_len, "parse() told about more input than the input buffer holds");
+    unsafe { GR_PARSE_CALLS += 1; GR_FED += new_input; }
+    p.input_len += new_input;
+    p.output.clear();
+    let rem: usize = kani::any();
+    kani::assume(rem <= p.input_len);
+    p.input_len = rem;
+    if kani::any() { p.output.push(0xAB); p.output.push(0xCD); unsafe { GR_OUT_TOTAL += 2; } }
+    let mut done: bool = kani::any();
+    if done {
+        p.state = if kani::any() { State::Done(fresh_req()) } else { State::Fatal(Error::NullRequest) };
+    } else if p.input_len == p.input.len() {
+        p.state = State::Fatal(Error::StuckOnInput);
+        done = true;
+    }
+    Yield { done, output: &p.output }
 }
